@@ -207,3 +207,139 @@ func ruleShrinkKeepsSize(c *eng.Ctx) {
 	c.Check(ok && len(tr) == 1, "index.shrink records the size it truncated the file to", p.Pos(fn.Pos()), "file.Truncate(position); size = position", "index.shrink truncates the file below the mapped size without updating idx.size: when the segment is written to again (Truncate re-activates a sealed segment) the entries go into pages the file no longer backs — not persisted, and SIGBUS once a page boundary is crossed")
 	_ = token.ADD
 }
+
+// ruleLeaderForgetsOldProgress (R04.5 extension, shared with C02): what a leader believes its followers hold is learned in ITS
+// term. becomeLeader resets every in-sync replica's recorded offset before it records its own; an offset remembered from an
+// earlier term of the same server can be ahead of what the follower holds now (it truncated in between), and the commit
+// rule would acknowledge ALL-policy messages the follower does not have.
+func ruleLeaderForgetsOldProgress(c *eng.Ctx) {
+	p := c.P
+	fn := c.Fn("server.(*partition).becomeLeader")
+	if fn == nil {
+		return
+	}
+	isrF := p.Field("server", "partition", "isr")
+	offF := p.Field("server", "replica", "offset")
+	ok := false
+	eng.Instrs(fn, func(in ssa.Instruction) {
+		mu, isMU := in.(*ssa.MapUpdate)
+		if !isMU || !eng.Load(isrF, nil)(mu.Map) {
+			return
+		}
+		// the key comes from ranging over the same map, the value is a fresh replica at -1
+		if _, fromRange := eng.Strip(mu.Key).(*ssa.Extract); !fromRange {
+			return
+		}
+		al, isAl := eng.Strip(mu.Value).(*ssa.Alloc)
+		if !isAl || al.Referrers() == nil {
+			return
+		}
+		for _, r := range *al.Referrers() {
+			if fa, isFA := r.(*ssa.FieldAddr); isFA && fieldIs(fa, offF) && fa.Referrers() != nil {
+				for _, rr := range *fa.Referrers() {
+					if st, isSt := rr.(*ssa.Store); isSt && eng.IntConst(-1)(st.Val) {
+						ok = true
+					}
+				}
+			}
+		}
+	})
+	if !ok {
+		// equally good: the existing replica objects are reset in place (a store of -1 to replica.offset, or a reset method,
+		// inside a loop over p.isr)
+		eng.Instrs(fn, func(in ssa.Instruction) {
+			if st, isSt := in.(*ssa.Store); isSt && eng.IntConst(-1)(st.Val) {
+				if fa, isFA := st.Addr.(*ssa.FieldAddr); isFA && fieldIs(fa, offF) {
+					if _, fromRange := eng.Strip(fa.X).(*ssa.Extract); fromRange {
+						ok = true
+					}
+				}
+			}
+		})
+	}
+	c.Check(ok, "a new leader forgets the follower progress of earlier terms", p.Pos(fn.Pos()), "every p.isr entry starts at -1 again in becomeLeader", "becomeLeader keeps the offsets recorded for the in-sync replicas while this server led an earlier epoch (replica offsets only grow, and only the leader's own entry is refreshed): after A → C → A with B truncating in between, A still believes B holds offset 5 and acknowledges an ALL message at offset 3 that B does not have")
+}
+
+// ruleReplicationShipsAtLeastOne (R04.6 extension): whatever the leader admitted can be shipped. The size cut-off of a
+// replication response applies only once the response already carries a message; otherwise a stored message whose size plus
+// the protocol overhead exceeds replication.max.bytes makes every response empty and the follower never gets past it.
+func ruleReplicationShipsAtLeastOne(c *eng.Ctx) {
+	p := c.P
+	fn := c.Fn("server.(*replicator).replicate")
+	if fn == nil {
+		return
+	}
+	tooBig := eng.CmpEdges(fn, func(v ssa.Value) bool { bo, ok := v.(*ssa.BinOp); return ok && bo.Op == token.ADD }, eng.LoadNamed("ReplicationMaxBytes", nil), eng.GT)
+	writes := eng.CallsIn(fn, "server.replicationProtocolWriter.Write")
+	if len(tooBig) == 0 || len(writes) == 0 {
+		c.Unresolved("the batch size test and writer.Write in replicator.replicate")
+		return
+	}
+	some := eng.CmpEdges(fn, func(v ssa.Value) bool { _, ok := v.(*ssa.Phi); return ok && v.Type().String() == "int" }, eng.IntConst(0), eng.GT)
+	q := &eng.PathQuery{Fn: fn, FromEdges: tooBig, Target: func(x ssa.Instruction) bool { _, isR := x.(*ssa.Return); return isR }, CutEdges: some,
+		CutInstr: func(x ssa.Instruction) bool {
+			for _, w := range writes {
+				if x == w.(ssa.Instruction) {
+					return true
+				}
+			}
+			return false
+		}}
+	w := q.Find()
+	c.Check(w == nil, "a replication response carries at least one message", p.Pos(fn.Pos()), "the size cut-off ends the batch only when something has been written to it", "the size cut-off can end a batch that is still empty (path "+w.String()+"): a stored message whose size plus headers exceeds replication.max.bytes is never shipped, every response is empty from then on, the follower stays behind and ALL-policy publishes time out")
+}
+
+// ruleReplayedDeleteNotifiesGroups (R06.6 extension, shared with C12): a replayed DELETE_STREAM tells the consumer groups about
+// the deletion at that entry, with that entry's index, exactly as a live apply does — only the removal of the data waits for
+// the end of recovery. Otherwise the groups hear of it later, stamped with the index of whatever entry was replayed last,
+// and a restarted server ends up with another group epoch than the servers that applied the log live.
+func ruleReplayedDeleteNotifiesGroups(c *eng.Ctx) {
+	p := c.P
+	fn := c.Fn("server.(*metadataAPI).RemoveStream")
+	if fn == nil {
+		return
+	}
+	replay := eng.BoolEdges(fn, eng.Param("recovered"), true)
+	notifies := func(x ssa.Instruction) bool {
+		call, ok := x.(*ssa.Call)
+		if !ok || call.Call.StaticCallee() == nil || !p.IsModuleFunc(call.Call.StaticCallee()) {
+			return false
+		}
+		hasEpoch := false
+		for _, a := range call.Call.Args {
+			if eng.Param("epoch")(a) {
+				hasEpoch = true
+			}
+		}
+		if !hasEpoch {
+			return false
+		}
+		for _, f := range moduleReach(c, call.Call.StaticCallee(), 3) {
+			found := false
+			eng.InstrsDeep(f, func(_ *ssa.Function, in ssa.Instruction) {
+				if ci, isCI := in.(ssa.CallInstruction); isCI && eng.CalleeRef(ci.Common()) == "server.consumerGroup.StreamDeleted" {
+					found = true
+				}
+			})
+			if found {
+				return true
+			}
+		}
+		return false
+	}
+	ok := len(replay) > 0
+	var w *eng.Witness
+	if ok {
+		q := &eng.PathQuery{Fn: fn, FromEdges: replay, Target: func(x ssa.Instruction) bool {
+			r, isR := x.(*ssa.Return)
+			if !isR {
+				return false
+			}
+			rv := eng.RetVals(r)
+			return len(rv) == 1 && eng.NilConst(rv[0])
+		}, CutInstr: notifies}
+		w = q.Find()
+		ok = w == nil
+	}
+	c.Check(ok, "a replayed stream deletion reaches the consumer groups at its own log position", p.Pos(fn.Pos()), "RemoveStream(recovered = true) notifies the groups with the entry's index before it returns", "a replayed DELETE_STREAM only tombstones the stream (path "+w.String()+"); the groups are told when the tombstoned stream is finally removed, with the index of the last replayed entry: the group epoch after a restart differs from the one on servers that applied the log live, and consumers get ErrGroupEpoch")
+}
